@@ -102,6 +102,8 @@ class Counter(dict):
             self[k] = self.get(k, 0) + v
 
 
+# the tree under test: /repo's working tree, or (sensitivity self-tests only) a mutated scratch worktree
+REPO = os.path.abspath(os.environ.get('VERIF_REPO') or '/repo')
 SCRATCH = os.environ.get('VERIF_SCRATCH') or f"/var/tmp/verif-{os.getpid()}"
 
 
@@ -115,9 +117,8 @@ def prepare_env():
     """Environment-level seams; call before importing openmdao."""
     os.environ['OPENMDAO_REPORTS'] = '0'
     os.environ.setdefault('OPENMDAO_WORKDIR', scratch_dir('wd'))
-    os.environ.pop('OPENMDAO_VERIF', None) if False else None
-    if '/repo' not in sys.path:
-        sys.path.insert(0, '/repo')
+    if REPO not in sys.path:
+        sys.path.insert(0, REPO)
 
 
 def reset_process_state(seed):
